@@ -24,7 +24,7 @@ HAND_FINGERPRINTS = [('path/__init__.py', 'BezierPath.splitAtPoints'), ('path/__
 GOLDEN_FINGERPRINTS = {'path/__init__.py:BezierPath.splitAtPoints': '38d18ff1ee6ed9d2', 'path/__init__.py:BezierPath.addExtremes': '66eb2632b61d4d9d',
                        'segment.py:Segment.__eq__': 'd819c7b26d05b684', 'segment.py:Segment.__hash__': '15b48420655f67a5', 'point.py:Point.__hash__': 'e1e21b872447fdf0'}
 P = Point
-FAMS = ['int', 'grid', 'float']
+FAMS = ['int', 'grid', 'float', 'big']
 DUP_CLASS = 'C03-duplicate-segment-value'
 
 
@@ -32,6 +32,7 @@ DUP_CLASS = 'C03-duplicate-segment-value'
 def fam_point(rng, fam):
     if fam == 'int': return P(float(rng.randint(-500, 500)), float(rng.randint(-500, 500)))
     if fam == 'grid': return P(float(rng.randint(-5, 5) * 100), float(rng.randint(-5, 5) * 100))
+    if fam == 'big': return P(rng.uniform(-20000, 20000), rng.uniform(-20000, 20000))      # relative tests must not be absolute ones
     return P(rng.uniform(-1000, 1000), rng.uniform(-1000, 1000))
 
 
@@ -399,6 +400,20 @@ def search(ctx):
             measured['duplicate_value_paths_failing'] += dup
             fails.append({'class': classify(segs), 'what': f[0], 'input': {'path': path_json(closed, segs)}, 'observed': f,
                           'expected': 'every resulting segment monotone in x and y up to 0.06% of the original extent; same curve, order, start, end, closedness, nodes'})
+    # asking must not change later answers: findExtremes(inflections=True) (and bounds / addExtremes users) first, then findExtremes()
+    for _ in range(ctx.n(60, 1000)):
+        fam = rng.choice(FAMS)
+        sh, s0 = edge(rng, fam, fam_point(rng, fam), fam_point(rng, fam), rng.choice(['cubic', 'cubic', 'cubic-lin', 'cubic-elev', 'quad']))
+        s1 = gen.fresh_copy(s0)
+        try:
+            if len(s1.points) == 4: s1.findExtremes(inflections=True)
+            s1.bounds(); s1.findExtremes()
+            a = gen.canon(s1.findExtremes()); b = gen.canon(gen.fresh_copy(s0).findExtremes())
+        except Exception as e:
+            a, b = ('raised', type(e).__name__), None
+        ev += 1; dist['repeated-queries'] = dist.get('repeated-queries', 0) + 1
+        if a != b: fails.append({'class': 'C03-stale-state', 'what': f'findExtremes() after findExtremes(inflections=True), bounds() and findExtremes() on the same object: {a}; on a fresh equal segment: {b}',
+                                 'input': {'segment': gen.seg_json(s0)}, 'observed': [a, b], 'expected': 'equal'})
     return {'evaluations': ev, 'distinct_nontrivial': len(seen), 'failures': fails, 'distribution': dist, 'samples': samples, 'measured': measured}
 
 
